@@ -1,3 +1,4 @@
+import DSV.Proofs.TxOps
 import DSV.Proofs.Meta
 /-!
 C15 — table metadata stays well-formed through every history.
@@ -90,3 +91,27 @@ example : WF (run [.add 10 1 none, .add 20 2 none, .setRetention (some 1), .add 
   wf_history _ (by decide)
 
 end DSV.Meta
+
+/-! ### several deletes / an expiry queued in one transaction -/
+namespace DSV.Props.C15tx
+open DSV.TxOps
+
+/-- **all_queued_deletes_applied** — every path of EVERY delete queued in a transaction is deleted -/
+theorem all_queued_deletes_applied (ops : List Op) (ps : List Nat) (h : Op.deleteFiles ps ∈ ops) :
+    ∀ x ∈ ps, x ∈ (partition ops).deletes := mem_deletes ops ps h
+
+/-- …and nothing that was not named -/
+theorem queued_deletes_exact (ops : List Op) :
+    (partition ops).deletes = ops.flatMap fun o => match o with | .deleteFiles ps => ps | _ => [] := partition_deletes ops
+
+/-- a transaction is committed in ONE shape (one pointer move): file operations carry the expiry along; an expiry alone is a
+metadata-only commit -/
+theorem one_commit_shape (ops : List Op) : shape (partition ops) = .fileOps ∨ shape (partition ops) = .metadataOnly := by
+  unfold shape; split <;> simp
+
+/-- what the property excludes: honouring only the last queued delete -/
+theorem last_delete_only_keeps_files :
+    ([Op.deleteFiles [1], .appendFiles [7], .deleteFiles [2]].foldl stepPartLastDeleteOnly ⟨[], [], none⟩).deletes = [2] ∧
+    (partition [Op.deleteFiles [1], .appendFiles [7], .deleteFiles [2]]).deletes = [1, 2] := by decide
+
+end DSV.Props.C15tx
